@@ -83,9 +83,92 @@ def split_guard(g):
     return [(c, pol)]
 
 
+def expand_procedures(func: ast.FunctionDef, resolver, depth: int = 0) -> ast.FunctionDef:
+    """Statement-level inlining of helper PROCEDURES of the same class: `self._helper(a, b, rhs)` written as a statement, where the
+    helper returns nothing, is replaced by the helper's body with its parameters renamed to the argument names (arguments that
+    are not plain names are bound to fresh locals first) and its locals made unique.  What the helper does to the lists it is
+    handed then shows up in the caller exactly as if the code had not been extracted."""
+    import copy as _copy
+    counter = itertools.count(1)
+
+    class Ren(ast.NodeTransformer):
+        def __init__(self, m):
+            self.m = m
+
+        def visit_Name(self, n):
+            if n.id in self.m:
+                n.id = self.m[n.id]
+            return n
+
+    def void(callee):
+        for r in ast.walk(callee):
+            if isinstance(r, (ast.Yield, ast.YieldFrom, ast.Global, ast.Nonlocal)):
+                return False
+            if isinstance(r, ast.Return) and r.value is not None and not (isinstance(r.value, ast.Constant) and r.value.value is None):
+                return False
+            if isinstance(r, ast.Return) and r is not callee.body[-1]:
+                return False
+        return True
+
+    def expand(stmts, d):
+        out = []
+        for st in stmts:
+            for fld in ("body", "orelse", "finalbody"):
+                b = getattr(st, fld, None)
+                if isinstance(b, list) and b and isinstance(b[0], ast.stmt):
+                    setattr(st, fld, expand(b, d))
+            c = st.value if isinstance(st, ast.Expr) else None
+            if isinstance(c, ast.Call) and isinstance(c.func, ast.Attribute) and isinstance(c.func.value, ast.Name) and c.func.value.id in ("self", "cls") \
+                    and d < 2 and not any(isinstance(a, ast.Starred) for a in c.args) and all(k.arg for k in c.keywords):
+                callee = resolver(c.func.attr)
+                if callee is not None and callee is not func and void(callee) and not callee.args.vararg and not callee.args.kwarg:
+                    decs = {ast.unparse(x) for x in callee.decorator_list}
+                    params = [a.arg for a in callee.args.args]
+                    if not (decs - {"staticmethod", "classmethod"}):
+                        ren = {}
+                        if "staticmethod" not in decs and params:
+                            ren[params[0]] = c.func.value.id
+                            params = params[1:]
+                        given = dict(zip(params, c.args))
+                        given.update({k.arg: k.value for k in c.keywords})
+                        defaults = dict(zip(params[len(params) - len(callee.args.defaults):], callee.args.defaults))
+                        if len(c.args) <= len(params) and all(p_ in given or p_ in defaults for p_ in params) and all(k in params for k in given):
+                            k_ = next(counter)
+                            pre = []
+                            for p_ in params:
+                                a = given.get(p_, defaults.get(p_))
+                                if isinstance(a, ast.Name):
+                                    ren[p_] = a.id
+                                else:
+                                    fresh = f"_inl{k_}_{p_}"
+                                    ren[p_] = fresh
+                                    pre.append(ast.copy_location(ast.Assign(targets=[ast.Name(id=fresh, ctx=ast.Store())], value=_copy.deepcopy(a)), st))
+                            body = _copy.deepcopy(callee.body)
+                            if body and isinstance(body[-1], ast.Return):
+                                body = body[:-1]
+                            locals_ = {n.id for b in body for n in ast.walk(b) if isinstance(n, ast.Name) and isinstance(n.ctx, ast.Store)} - set(ren)
+                            for l in locals_:
+                                ren[l] = f"_inl{k_}_{l}"
+                            body = [Ren(ren).visit(b) for b in body]
+                            body = [b for b in body if not (isinstance(b, ast.Expr) and isinstance(b.value, ast.Constant))]
+                            for b in pre + body:
+                                ast.fix_missing_locations(b)
+                            out.extend(pre + expand(body, d + 1))
+                            continue
+            out.append(st)
+        return out
+    new = _copy.deepcopy(func)
+    new.body = expand(new.body, depth)
+    return new
+
+
 class Flow:
     def __init__(self, func: ast.FunctionDef, file: str = "", consts: dict | None = None,
-                 self_name: str | None = None, keep_arms: bool = False, resolver=None, _depth: int = 0, _env: dict | None = None):
+                 self_name: str | None = None, keep_arms: bool = False, resolver=None, _depth: int = 0, _env: dict | None = None,
+                 proc_resolver=None):
+        # proc_resolver: name -> FunctionDef of a helper PROCEDURE of the same class, expanded in place as statements
+        if proc_resolver is not None and _depth == 0:
+            func = expand_procedures(func, proc_resolver)
         self.keep_arms = keep_arms
         self.resolver = resolver          # name -> FunctionDef of a small pure helper method of the same class (inlined)
         self._depth = _depth
